@@ -249,9 +249,21 @@ static void reportFailure(const std::string& kind, const std::string& tag, const
 }
 
 // ---------------------------------------------------------------------------------- branching
+static bool isNot(Z3_ast a, Z3_ast* inner) {
+  if (Z3_get_ast_kind(Z, a) != Z3_APP_AST) return false;
+  Z3_app app = Z3_to_app(Z, a);
+  if (Z3_get_decl_kind(Z, Z3_get_app_decl(Z, app)) != Z3_OP_NOT) return false;
+  *inner = Z3_get_app_arg(Z, app, 0);
+  return true;
+}
+static bool decideAst(Z3_ast a);
 static bool decide(const Val& c) {
   if (!c.s) return c.c & 1;
-  Z3_ast a = SYM[c.s];
+  return decideAst(SYM[c.s]);
+}
+static bool decideAst(Z3_ast a) {
+  Z3_ast inner;
+  if (isNot(a, &inner)) return !decideAst(inner);
   auto it = KNOWN.find(a);
   if (it != KNOWN.end()) return it->second;
   bool mv = modelBool(MODEL, a);
